@@ -7,6 +7,9 @@
 //   VF_MAXCNT bound on counts / range lengths
 #include "vf_pre.hpp"
 #include "vf.hpp"
+#ifdef VF_USE_PZ
+#include "vf_pz.hpp"   // element type whose moves change their source
+#endif
 
 #ifndef VF_ELEM
 #define VF_ELEM int
